@@ -2,6 +2,7 @@ package sim
 
 import (
 	"bytes"
+	"sync"
 	"context"
 	"fmt"
 	"math"
@@ -62,6 +63,8 @@ type Step struct {
 	DrainArmed bool
 	// advance
 	Ms int64
+	// seq: a sequence of steps executed as one (used as the nested step of a gate)
+	Sub []*Step
 }
 
 func (s *Step) String() string {
@@ -114,6 +117,8 @@ type World struct {
 	StepNo   int
 	Log      []string
 	depth    int
+	gateMu   sync.Mutex // serialises nested (gate) steps with the end of the outer call
+	active   int        // call id of the API call the actor is currently inside (0 = none)
 	ReadErrs int
 	// number of traced RPCs the last DrainArmed commit issued (synchronous + background)
 	LastCallRPCs int
@@ -156,15 +161,23 @@ func (w *World) recordRead(t *TxnRec, api, key string, val []byte, found bool, a
 	t.Reads = append(t.Reads, ReadRec{API: api, Key: key, Value: append([]byte{}, val...), Found: found, AtTS: at, OwnSeen: own && api != "lock", Step: w.StepNo})
 }
 
-func (w *World) arm(c *Client, faults []FaultSpec) {
+func (w *World) arm(c *Client, txnStart uint64, faults []FaultSpec) int {
 	var plan []*Fault
+	callID := w.Cl.NextCall()
+	if w.depth > 0 {
+		faults = nil // nested steps run fault-free (their gates would deadlock on gateMu)
+	}
 	for i := range faults {
 		fs := faults[i]
 		f := &Fault{Type: cmdByName[fs.Type], Index: fs.Index, Action: fs.Action}
 		if fs.Nested != nil {
 			nested := fs.Nested
 			f.Gate = func() {
-				if w.depth >= 2 {
+				// a nested step runs only while the actor is blocked inside the armed call: a gate reached by a
+				// background goroutine after the call returned must not run a step concurrently with the actor
+				w.gateMu.Lock()
+				defer w.gateMu.Unlock()
+				if w.active != callID || w.depth >= 2 {
 					return
 				}
 				w.depth++
@@ -178,7 +191,8 @@ func (w *World) arm(c *Client, faults []FaultSpec) {
 		}
 		plan = append(plan, f)
 	}
-	c.Net.Arm(w.Cl.NextCall(), plan)
+	c.Net.Arm(callID, txnStart, plan)
+	return callID
 }
 
 // Exec runs one step.
@@ -187,6 +201,11 @@ func (w *World) Exec(s *Step) {
 	w.Log = append(w.Log, s.String())
 	ctx := context.Background()
 	switch s.Op {
+	case "seq":
+		for _, sub := range s.Sub {
+			w.Exec(sub)
+		}
+		return
 	case "split":
 		w.Cl.SplitAt(s.Keys[0])
 		return
@@ -230,8 +249,28 @@ func (w *World) Exec(s *Step) {
 		t.Ended = "killed"
 		return
 	}
-	w.arm(c, s.Faults)
-	defer c.Net.Disarm()
+	saved := c.Net.Save()
+	callID := w.arm(c, t.StartTS, s.Faults)
+	if w.depth == 0 {
+		w.gateMu.Lock()
+		w.active = callID
+		w.gateMu.Unlock()
+		defer func() {
+			w.gateMu.Lock()
+			w.active = 0
+			w.gateMu.Unlock()
+			c.Net.Disarm()
+		}()
+	} else {
+		// a nested step on the outer call's client must leave that call's fault plan and counters intact; the
+		// outer call stays the active one
+		outer := w.active
+		w.active = callID
+		defer func() {
+			w.active = outer
+			c.Net.Restore(saved)
+		}()
+	}
 	switch s.Op {
 	case "get":
 		v, err := txn.Get(ctx, []byte(s.Keys[0]))
@@ -275,7 +314,7 @@ func (w *World) Exec(s *Step) {
 				got = append(got, [2][]byte{append([]byte{}, it.Key()...), append([]byte{}, it.Value()...)})
 				err = it.Next()
 			}
-			if it != nil {
+			if e == nil {
 				it.Close()
 			}
 		} else {
@@ -289,7 +328,7 @@ func (w *World) Exec(s *Step) {
 				got = append(got, [2][]byte{append([]byte{}, it.Key()...), append([]byte{}, it.Value()...)})
 				err = it.Next()
 			}
-			if it != nil {
+			if e == nil {
 				it.Close()
 			}
 		}
